@@ -349,10 +349,11 @@ def _x_cases(draw):
     if draw(st.integers(0, 2)) == 0:
         # E:1 reuses L's synset ids: entities of two lexicons with one id are different entities
         ren = {x['id']: f'L-s{i}' for i, x in enumerate(E1['synsets'])}
-        for x in E1['synsets']:
-            x['id'] = ren[x['id']]
+        ext = case['lexicons'].get('EX:1', {'synsets': []})      # an extension of E:1, if any
+        for x in E1['synsets'] + ext['synsets']:
+            x['id'] = ren.get(x['id'], x['id'])
             for r in x.get('relations', []):
-                r['target'] = ren[r['target']]
+                r['target'] = ren.get(r['target'], r['target'])
         if draw(st.booleans()):
             case['selection'] = 'L:1 E:1'
             if len(L['synsets']) >= 2 and draw(st.booleans()):
